@@ -112,6 +112,18 @@ func (g *Gen) rng(lo, hi int, label string) int {
 }
 func (g *Gen) flip(label string) bool { return rapid.Bool().Draw(g.T, label) }
 
+// count draws the length of a list (arguments, items, names, cases ...): usually lo..hi, one time in
+// twelve up to nine. Lists are assembled by repeated append (capacities 1, 2, 4, 8), so what a list of
+// 3, 5, 6 or 7 elements leaves behind — spare capacity another append can write into — differs from
+// what the usual one to three elements leave.
+func (g *Gen) count(lo, hi int, label string) int {
+	if g.depth <= g.O.MaxDepth && hi < 9 && rapid.IntRange(0, 11).Draw(g.T, label+"-long") == 0 {
+		g.feat("long-list")
+		return rapid.IntRange(hi+1, 9).Draw(g.T, label)
+	}
+	return rapid.IntRange(lo, hi).Draw(g.T, label)
+}
+
 // chance is true with probability about num/den.
 func (g *Gen) chance(num, den int, label string) bool {
 	return rapid.IntRange(1, den).Draw(g.T, label) <= num
@@ -231,7 +243,7 @@ func (g *Gen) NameOf(segs ...string) *ast.Name {
 func (g *Gen) Name() ast.Vertex {
 	n := 1
 	if g.chance(1, 3, "qualified") {
-		n = g.rng(2, 3, "segments")
+		n = g.count(2, 3, "segments")
 	}
 	parts, seps := g.nameParts(n)
 	switch g.intn(6, "nameform") {
